@@ -123,6 +123,28 @@ def variants():
     return out
 
 
+INVALID = dict(
+    inexact_gradient_step=("notion", ("abs", "rel", "", "e", "Absolute", "relative ", " absolute", "absoluterelative", "solute", None, 1)),
+    inexact_proximal_step=("opt", ("PD_gap", "PD_gapIV", "gapI", "", "pd_gapi", "PD_gapI ", "I", "PD_gapIIII", None, 2)))
+
+
+def invalid_options():
+    """every near miss of a documented option value (substring, other case, padding, concatenation, non-string) makes the
+    step raise; returns the list of (step, option, value, outcome)"""
+    out = []
+    for step, (opt, vals) in INVALID.items():
+        for v in vals:
+            pep = PEP(); f = pep.declare_function(ConvexFunction); x0 = Point()
+            kw = {opt: v}
+            try:
+                if step == "inexact_gradient_step": PS.inexact_gradient_step(x0, f, gamma=.5, epsilon=.25, **kw)
+                else: PS.inexact_proximal_step(x0, f, gamma=.5, **kw)
+                out.append((step, opt, repr(v), "accepted"))
+            except (ValueError, TypeError, AssertionError) as ex:
+                out.append((step, opt, repr(v), type(ex).__name__))
+    return out
+
+
 def lean_ekey(k):
     if k[0] == "f": return ".f %d" % k[1]
     if k[0] == "ip": return ".ip %d %d" % (k[1], k[2])
@@ -157,6 +179,11 @@ def main(repo, out):
         L.append("def %s.cons%s : List (Nat × Bool × EDict) :=\n  [%s]" % (ns, args, ",\n   ".join(
             "(%d, %s, %s)" % (c["fun"], "true" if c["isEq"] else "false", lean_ed(c["form"])) for c in r["cons"])))
         L.append("")
+    inv = invalid_options()
+    L.append("/-! ### option values that are NOT documented (near misses of the documented strings): outcome of the call -/")
+    L.append("def invalidOptions : List (String × String × String × String) :=\n  [%s]" % ",\n   ".join(
+        '("%s", "%s", "%s", "%s")' % (a, b, c.replace('"', "'"), d) for a, b, c, d in inv))
+    L.append("")
     L.append("end Gen.Steps")
     open(os.path.join(out, "GenSteps.lean"), "w").write("\n".join(L) + "\n")
     return res
